@@ -14,6 +14,8 @@ import NiftyVerif.Lemmas.CgClassicIE
 import NiftyVerif.Lemmas.CgClassicExample
 import NiftyVerif.Lemmas.ControllersSqrt
 import NiftyVerif.Lemmas.CgClassicHist
+import NiftyVerif.Lemmas.CgClassicExact
+import Mathlib.LinearAlgebra.Dimension.Constructions
 
 set_option linter.unusedSectionVars false
 
@@ -539,6 +541,57 @@ example : (cg exSys (gradNorm (some (1 / 1000)) none 1 (some 10)) 20 100 (QE.at 
     = [-25 / 36, -7 / 10] := by
   decide +kernel
 
+/-! ## exact termination -/
+
+/-- **Orthogonality / conjugacy invariants of CG** (SPD `A`, linear self-adjoint definite preconditioner `P`).  Let `W` be
+    the span of the search directions of the earlier iterations.  If the residual `r` is orthogonal to `W`, the direction
+    `d` is `A`-conjugate to `W`, `P r ∈ W + K·d` and `P A W ⊆ W + K·d`, then after one CG step
+    (`r' = r − α A d`, `d' = (γ'/γ) d + P r'`) the same holds for `W + K·d`: the new residual is orthogonal to all
+    directions so far (hence `⟨r', P rᵢ⟩ = 0` for every earlier residual), the new direction is `A`-conjugate to all
+    directions so far. -/
+theorem cg_conjugacy_invariants (S : Sys V K) (hS : S.SPDP) (W : Submodule K V) (r d r' : V) (pg : K)
+    (hI : ExactInv S W r d) (hpg : pg = S.ip r d) (hpos : 0 < pg)
+    (hr' : r' = r - (pg / S.ip d (S.A d)) • S.A d) :
+    ExactInv S (W ⊔ Submodule.span K {d}) r' ((S.ip r' (precond S r') / pg) • d + precond S r') :=
+  exact_step hS hI hpg hpos hr'
+
+/-- **Exact CG terminates within `n` iterations.**  On an SPD system with a linear self-adjoint definite preconditioner in
+    a space of dimension `n`, `ConjugateGradient.__call__` performs at most `n` passes through its loop whatever the
+    controller says: with `n` units of fuel the model never runs out of fuel.  (Together with `cg_no_error_spd`: it leaves
+    through the controller or through `gamma == 0`, i.e. at the exact solution.) -/
+theorem cg_exact_in_n_steps (S : Sys V K) (hS : S.SPDP) [FiniteDimensional K V] (c : Ctrl K τ) (nreset : Int)
+    (fuel : Nat) (hfuel : Module.finrank K V ≤ fuel) (E : QE V K) (hE : E.Consistent S) :
+    (cg S c nreset fuel E).reason ≠ .fuel ∧ (cg S c nreset fuel E).iters.length ≤ Module.finrank K V :=
+  cg_exact S hS c nreset fuel hfuel E hE
+
+/-- ... and if the controller never stops it (never raises), the position returned after those at most `n` iterations is
+    the exact solution `A x = b`, reported as CONVERGED. -/
+theorem cg_exact_solution (S : Sys V K) (hS : S.SPDP) [FiniteDimensional K V] (c : Ctrl K τ) (nreset : Int)
+    (fuel : Nat) (hfuel : Module.finrank K V ≤ fuel) (E : QE V K) (hE : E.Consistent S)
+    (hc : (cg S c nreset fuel E).reason ≠ .ctrlStart ∧ (cg S c nreset fuel E).reason ≠ .ctrlCheck ∧
+      (cg S c nreset fuel E).reason ≠ .raised) :
+    trueGrad S (cg S c nreset fuel E).energy.pos = 0 ∧ (cg S c nreset fuel E).iters.length ≤ Module.finrank K V := by
+  obtain ⟨hf, hn⟩ := cg_exact_in_n_steps S hS c nreset fuel hfuel E hE
+  have hs := cg_spd S hS.toSPD c nreset fuel E hE
+  refine ⟨?_, hn⟩
+  apply (cg_no_error_spd S hS.toSPD c nreset fuel E hE).2.2
+  obtain ⟨h1, h2, h3⟩ := hs.noGiveUp
+  obtain ⟨hc1, hc2, hc3⟩ := hc
+  clear hs hn
+  revert hf h1 h2 h3 hc1 hc2 hc3
+  generalize (cg S c nreset fuel E).reason = rs
+  intro hf h1 h2 h3 hc1 hc2 hc3
+  cases rs <;> simp_all
+
+/-- non-vacuity: `exSys` (no preconditioner) satisfies the hypotheses in dimension 2; its run has 2 iterations -/
+example : exSys.SPDP ∧ Module.finrank ℚ (ℚ × ℚ) = 2 ∧
+    (cg exSys (gradNorm (some (1 / 1000)) none 1 (some 10)) 20 100 (QE.at exSys (0, 0))).iters.length = 2 :=
+  ⟨{ exSys_spd with
+      P_add := by intro x y; rfl
+      P_smul := by intro a x; rfl
+      P_selfAdj := by intro x y; rfl },
+   by simp, by decide +kernel⟩
+
 /-! ## InversionEnabler -/
 
 /-- Mode bookkeeping of `InversionEnabler.apply` (whole finite tables evaluated): whenever a valid mode `2^i` is
@@ -631,5 +684,108 @@ example : (match inversionEnabler exOp none (gradNorm (some (1 / 5 : ℚ)) none 
     (exOp.capability < 16) ∧ (ieSys exOp none exIp exNinf (1, 2) 4).Linear ∧
     (∀ v, exIp v (precond (ieSys exOp none exIp exNinf (1, 2) 4) v) = 0 → v = 0) :=
   ⟨by decide +kernel, by decide, exOp_linear _ _, exOp_definite _ _⟩
+
+/-- The CG run behind `InversionEnabler.apply(x, mode)` for **any** controller: the operator supports the inverse mode,
+    the run is `ConjugateGradient(ic, nreset=20)` on the system `op^{inverse mode} · = x` started at 0, the returned
+    field is the position it returns, and the true gradient of that system is the residual `op^{inverse mode} v − x`. -/
+theorem inversion_enabler_run (op : LinOp V) (approx : Option (LinOp V)) (hcap : op.capability < 16)
+    (c : Ctrl K τ) (ip : V → V → K) (ninfsq : V → K) (fuel : Nat) (x : V) (mode : Nat) (y : V) (run : Out V K τ)
+    (h : inversionEnabler op approx c ip ninfsq (0 : V) fuel x mode = .solved y run) :
+    op.capability &&& ieInvMode mode ≠ 0 ∧
+    run = cg (ieSys op approx ip ninfsq x mode) c 20 fuel (QE.at (ieSys op approx ip ninfsq x mode) 0) ∧
+    y = run.energy.pos ∧
+    ∀ v, trueGrad (ieSys op approx ip ninfsq x mode) v = op.apply v (ieInvMode mode) - x := by
+  obtain ⟨_, _, hsup, hrun, hy⟩ := ie_solved op approx c ip ninfsq fuel x mode y run hcap h
+  exact ⟨hsup, hrun, hy, fun v => rfl⟩
+
+/-- InversionEnabler with **GradInfNormController**: CONVERGED ⇒ the residual `g = op^{inv}(y) − x` is 0, or the limit
+    was reached, or `‖g‖∞ ≤ tol·|E(y)|` for the true quadratic energy `E(y) ≠ 0` of the returned field. -/
+theorem inversion_enabler_solves_gradinf (op : LinOp V) (approx : Option (LinOp V)) (hcap : op.capability < 16)
+    (ip : V → V → K) (ninfsq : V → K) (tol : Option K) (level : Int) (limit : Option Int) (hl : 1 ≤ level)
+    (fuel : Nat) (x : V) (mode : Nat) (y : V) (run : Out V K Unit)
+    (h : inversionEnabler op approx (gradInf tol level limit) ip ninfsq (0 : V) fuel x mode = .solved y run)
+    (hA : (ieSys op approx ip ninfsq x mode).Linear)
+    (hP : ∀ v, ip v (precond (ieSys op approx ip ninfsq x mode) v) = 0 → v = 0)
+    (hconv : run.status = .converged) :
+    let S := ieSys op approx ip ninfsq x mode
+    op.apply y (ieInvMode mode) - x = 0 ∨
+    (∃ l s1, limit = some l ∧ run.ctrl = some s1 ∧ l ≤ s1.itcount) ∨
+    (∃ t, tol = some t ∧ trueValue S y ≠ 0 ∧ 0 ≤ t ∧
+      ninfsq (op.apply y (ieInvMode mode) - x) ≤ t * t * (trueValue S y * trueValue S y)) := by
+  intro S
+  obtain ⟨_, hrun, hy, _⟩ := inversion_enabler_run op approx hcap _ ip ninfsq fuel x mode y run h
+  subst hrun
+  subst hy
+  exact cg_gradinf_sound S hA hP tol level limit hl 20 fuel _ (at_consistent _ _) hconv
+
+/-- InversionEnabler with **DeltaEnergyController**: CONVERGED ⇒ residual 0, or limit reached, or the true energies of
+    the returned field and of the position checked just before differ by less than `tol·max(|·|,|·|)`. -/
+theorem inversion_enabler_solves_deltaE (op : LinOp V) (approx : Option (LinOp V)) (hcap : op.capability < 16)
+    (ip : V → V → K) (ninfsq : V → K) (tol : K) (level : Int) (limit : Option Int) (hl : 1 ≤ level)
+    (fuel : Nat) (x : V) (mode : Nat) (y : V) (run : Out V K K)
+    (h : inversionEnabler op approx (deltaE tol level limit) ip ninfsq (0 : V) fuel x mode = .solved y run)
+    (hA : (ieSys op approx ip ninfsq x mode).Linear)
+    (hP : ∀ v, ip v (precond (ieSys op approx ip ninfsq x mode) v) = 0 → v = 0)
+    (hconv : run.status = .converged) :
+    let S := ieSys op approx ip ninfsq x mode
+    op.apply y (ieInvMode mode) - x = 0 ∨
+    (∃ l s1, limit = some l ∧ run.ctrl = some s1 ∧ l ≤ s1.itcount) ∨
+    (∃ os, run.checked = QE.at S 0 :: (os ++ [run.energy]) ∧
+      0 < max |trueValue S ((QE.at S 0 :: os).getLast (by simp)).pos| |trueValue S y| ∧
+      |trueValue S ((QE.at S 0 :: os).getLast (by simp)).pos - trueValue S y| <
+        tol * max |trueValue S ((QE.at S 0 :: os).getLast (by simp)).pos| |trueValue S y|) := by
+  intro S
+  obtain ⟨_, hrun, hy, _⟩ := inversion_enabler_run op approx hcap _ ip ninfsq fuel x mode y run h
+  subst hrun
+  subst hy
+  exact cg_deltaE_sound S hA hP tol level limit hl 20 fuel _ (at_consistent _ _) hconv
+
+/-- InversionEnabler with **AbsDeltaEnergyController**: CONVERGED ⇒ residual 0, or limit reached, or the true energies
+    of the returned field and of the position checked just before differ by less than `deltaE`. -/
+theorem inversion_enabler_solves_absdeltaE (op : LinOp V) (approx : Option (LinOp V)) (hcap : op.capability < 16)
+    (ip : V → V → K) (ninfsq : V → K) (dE : K) (level : Int) (limit : Option Int) (hl : 1 ≤ level)
+    (fuel : Nat) (x : V) (mode : Nat) (y : V) (run : Out V K K)
+    (h : inversionEnabler op approx (absDeltaE dE level limit) ip ninfsq (0 : V) fuel x mode = .solved y run)
+    (hA : (ieSys op approx ip ninfsq x mode).Linear)
+    (hP : ∀ v, ip v (precond (ieSys op approx ip ninfsq x mode) v) = 0 → v = 0)
+    (hconv : run.status = .converged) :
+    let S := ieSys op approx ip ninfsq x mode
+    op.apply y (ieInvMode mode) - x = 0 ∨
+    (∃ l s1, limit = some l ∧ run.ctrl = some s1 ∧ l ≤ s1.itcount) ∨
+    (∃ os, run.checked = QE.at S 0 :: (os ++ [run.energy]) ∧
+      |trueValue S ((QE.at S 0 :: os).getLast (by simp)).pos - trueValue S y| < dE) := by
+  intro S
+  obtain ⟨_, hrun, hy, _⟩ := inversion_enabler_run op approx hcap _ ip ninfsq fuel x mode y run h
+  subst hrun
+  subst hy
+  exact cg_absdeltaE_sound S hA hP dE level limit hl 20 fuel _ (at_consistent _ _) hconv
+
+/-- InversionEnabler with **StochasticAbsDeltaEnergyController**: CONVERGED ⇒ residual 0, or limit reached, or the
+    variance of the true energies of the last `memory_length` checked positions (returned field included) is `< deltaE²`. -/
+theorem inversion_enabler_solves_stochastic (op : LinOp V) (approx : Option (LinOp V)) (hcap : op.capability < 16)
+    (ip : V → V → K) (ninfsq : V → K) (dE : K) (level : Int) (limit : Option Int) (memLen : Int) (hl : 1 ≤ level)
+    (fuel : Nat) (x : V) (mode : Nat) (y : V) (run : Out V K (List K))
+    (h : inversionEnabler op approx (stochastic dE level limit memLen) ip ninfsq (0 : V) fuel x mode = .solved y run)
+    (hA : (ieSys op approx ip ninfsq x mode).Linear)
+    (hP : ∀ v, ip v (precond (ieSys op approx ip ninfsq x mode) v) = 0 → v = 0)
+    (hconv : run.status = .converged) :
+    let S := ieSys op approx ip ninfsq x mode
+    op.apply y (ieInvMode mode) - x = 0 ∨
+    (∃ l s1, limit = some l ∧ run.ctrl = some s1 ∧ l ≤ s1.itcount) ∨
+    (∃ os, run.checked = QE.at S 0 :: (os ++ [run.energy]) ∧
+      lastN memLen (((QE.at S 0 :: os) ++ [run.energy]).map fun E' => trueValue S E'.pos) ≠ [] ∧ 0 < dE ∧
+      varK (lastN memLen (((QE.at S 0 :: os) ++ [run.energy]).map fun E' => trueValue S E'.pos)) < dE * dE) := by
+  intro S
+  obtain ⟨_, hrun, hy, _⟩ := inversion_enabler_run op approx hcap _ ip ninfsq fuel x mode y run h
+  subst hrun
+  subst hy
+  exact cg_stochastic_sound S hA hP dE level limit memLen hl 20 fuel _ (at_consistent _ _) hconv
+
+/-- non-vacuity (concrete evaluation, one instance): `InversionEnabler(exOp, AbsDeltaEnergyController(deltaE=1/4,
+    iteration_limit=10)).inverse_times((1,2))` goes through CG, which reports CONVERGED -/
+example : (match inversionEnabler exOp none (absDeltaE (1 / 4 : ℚ) 1 (some 10)) exIp exNinf 0 100 (1, 2) 4 with
+    | .solved _ run => decide (run.status = .converged)
+    | _ => false) = true := by
+  decide +kernel
 
 end NiftyVerif.C14
